@@ -35,7 +35,7 @@
      UserFn     function                n = #args      <<args>>
      Root       tree         file       n = #names     <<src, name1..namen>>       explicit AsROOTTTree
 *)
-EXTENDS Values, FiniteSets
+EXTENDS Values, FiniteSets, Fns
 
 ----------------------------------------------------------------------------
 (* Environments: innermost binding last, looked up from the end (proper shadowing) *)
@@ -77,6 +77,23 @@ MathApply(f, args) ==
        THEN LET e == MathTable[key] IN
             IF e.f = "ok" THEN Norm("double", e.n, e.d) ELSE Undef("math_nonfinite")
        ELSE Undef("math_no_entry")
+
+----------------------------------------------------------------------------
+(* C++ functions supplied through metadata: FnMeaning(id) names the function's known meaning
+   (the table lives in Universe.tla; method style: the receiver is the first argument)        *)
+FnMeaning(id) == IF \E i \in DOMAIN UserFns : UserFns[i].id = id THEN FnById(id).meaning ELSE "unknown"
+D10 == Num("double", 10, 1)
+UserApply(id, args, ev) ==
+  IF AnyBad(args) THEN FirstBad(args)
+  ELSE LET m == FnMeaning(id) IN
+       CASE m = "lin2"  -> PyAdd(PyMul(D10, args[1]), args[2])
+         [] m = "lin3"  -> PyAdd(PyAdd(PyMul(Num("double", 100, 1), args[1]), PyMul(D10, args[2])), args[3])
+         [] m = "inc"   -> PyAdd(args[1], Num("double", 1, 1))
+         [] m = "twice" -> PyMul(Num("double", 2, 1), args[1])
+         [] m = "meth"  -> LET pt == Attr(ev, args[1], "pt") IN
+                           IF Bad(pt) THEN pt ELSE PyAdd(PyMul(Num("double", 2, 1), pt), args[2])
+         [] m = "pair"  -> SeqV(<<PyMul(Num("double", 1, 1), args[1]), PyMul(Num("double", 1, 1), args[2])>>)
+         [] OTHER -> Undef("unknown_function:" \o id)
 
 ----------------------------------------------------------------------------
 (* Denotation *)
@@ -225,6 +242,7 @@ Denote(q, env, ev) ==
          LET x == Denote(q.ch[1], env, ev) IN
          IF Bad(x) THEN x ELSE x.v[CHOOSE i \in DOMAIN x.keys : x.keys[i] = q.a]
     [] q.k = "Math" -> MathApply(q.a, [i \in 1..q.n |-> Denote(q.ch[i], env, ev)])
+    [] q.k = "UserFn" -> UserApply(q.a, [i \in 1..Len(q.ch) |-> Denote(q.ch[i], env, ev)], ev)
     [] q.k = "Root" -> Denote(q.ch[1], env, ev)
     [] OTHER -> Undef("no_denotation:" \o q.k)
 
@@ -329,6 +347,7 @@ TypeOf(q, tenv, sig) ==
     [] q.k = "DictGet" -> LET x == TypeOf(q.ch[1], tenv, sig) IN
                           x.v[CHOOSE i \in DOMAIN x.keys : x.keys[i] = q.a]
     [] q.k = "Math" -> NumT({"double"})
+    [] q.k = "UserFn" -> IF FnMeaning(q.a) = "pair" THEN SeqT(NumT({"double"})) ELSE NumT({"double"})
     [] q.k = "Root" -> TypeOf(q.ch[1], tenv, sig)
     [] OTHER -> [t |-> "unknown"]
 
